@@ -39,7 +39,9 @@ func HarnessC13Binding() {
 	dflt := c13Letter()
 	args := make([]string, na)
 	call := ""
-	ctx := Context{"dflt": dflt}
+	// the context also has variables named like the parameters: an omitted parameter is bound to
+	// its default or to empty, it must not fall through to an outer variable of the same name
+	ctx := Context{"dflt": dflt, "p": "OUTERP", "q": "OUTERQ", "r": "OUTERR", "s": "OUTERS"}
 	for j := 0; j < na; j++ {
 		if j > 0 {
 			call += ", "
